@@ -39,6 +39,7 @@ pub fn check_tow(rep: &mut Rep, week: u32, ns: u64, s: TimeScale) {
     if nt {
         rep.nt(h64(&[1, week as u64, ns, scale_idx(s)]));
     }
+    rep.log_event("tow", || format!("\"week\":{},\"ns\":{},\"want\":\"{}\"", week, ns, want));
     rep.sample("tow", || format!("from_time_of_week({week}, {ns}, {:?}) => count {}", s, want));
     match guard(|| {
         let e = Epoch::from_time_of_week(week, ns, s);
